@@ -266,6 +266,13 @@ func (x *sess) execW(f []string) string {
 				keep[i] = append([]byte(nil), items[i]...)
 			}
 			x.ser.WriteSliceOfByteSlices(items, modeOf(f[2]), lpOf(f[1]), rulesOf(f[3], f[4], f[5]), ident)
+			if c0 == "-" {
+				// independent judgement of the rules (declarative, on the elements as given): accepted iff satisfied
+				_, c := x.serState()
+				if want := rulesHold(keep, f[2], atoi(f[3]), atoi(f[4]), f[5]); strings.HasPrefix(f[2], "v") && c != "other" && want != (c == "-") {
+					x.fail("rules", fmt.Sprintf("WriteSliceOfByteSlices %v answered %s, the rules are satisfied: %v", f[1:6], c, want)+fmt.Sprintf(" elements=%x", keep), "write-seq")
+				}
+			}
 			// the elements may be re-ordered (sort.Slice on the caller's slice), their bytes must not change
 			a, b := make([]string, len(items)), make([]string, len(items))
 			for i := range items {
@@ -293,6 +300,41 @@ func (x *sess) execW(f []string) string {
 	}
 
 	return fmt.Sprintf("%d %s", w1, c1)
+}
+
+// rulesHold judges the array rules on a sequence of element encodings declaratively: count within the bounds, pairwise
+// different (no duplicates), adjacent elements in bytewise order (strict with no duplicates; after sorting when the mode
+// asks for it), first byte / first four bytes pairwise different.
+func rulesHold(items [][]byte, mode string, mn, mx int, fl string) bool {
+	if (mn != 0 && len(items) < mn) || (mx != 0 && len(items) > mx) {
+		return false
+	}
+	data := append([][]byte(nil), items...)
+	lex, nd := strings.Contains(fl, "l"), strings.Contains(fl, "d")
+	if strings.HasSuffix(mode, "s") && lex {
+		sort.SliceStable(data, func(i, j int) bool { return bytes.Compare(data[i], data[j]) < 0 })
+	}
+	for i := range data {
+		for j := i + 1; j < len(data); j++ {
+			if nd && bytes.Equal(data[i], data[j]) {
+				return false
+			}
+			if strings.Contains(fl, "b") && (len(data[i]) < 1 || len(data[j]) < 1 || data[i][0] == data[j][0]) {
+				return false
+			}
+			if strings.Contains(fl, "w") && (len(data[i]) < 4 || len(data[j]) < 4 || !(data[i][0] != data[j][0] || data[i][1] != data[j][1] || data[i][2] != data[j][2] || data[i][3] != data[j][3])) {
+				return false
+			}
+		}
+		if lex && i > 0 && bytes.Compare(data[i-1], data[i]) > 0 {
+			return false
+		}
+		if (strings.Contains(fl, "b") && len(data[i]) < 1) || (strings.Contains(fl, "w") && len(data[i]) < 4) {
+			return false
+		}
+	}
+
+	return true
 }
 
 func denOf(s string) serializer.TypeDenotationType {
@@ -717,6 +759,21 @@ func genSeq(rng *hx.Rng, big_ bool) pop {
 			}
 		}
 	}
+	if strings.Contains(fl, "w") && n <= 300 && rng.Chance(2, 3) {
+		// type words that differ in a single byte (also the most significant one)
+		base := randBytes(rng, 3)
+		for i := range items {
+			k := rng.Range(3, 5)
+			items[i] = append([]byte{byte(k)}, randBytes(rng, k)...)
+			copy(items[i][1:], base)
+			pos := rng.Intn(4)
+			if pos > 0 {
+				items[i][pos] ^= byte(1 + rng.Intn(3))
+			} else {
+				items[i][3] = base[2] // same word as another element, unless k differs
+			}
+		}
+	}
 	if n >= 2 && rng.Chance(1, 3) {
 		items[rng.Intn(n)] = append([]byte(nil), items[rng.Intn(n)]...) // a duplicate
 	}
@@ -923,6 +980,9 @@ var corpus = [][]string{
 	{"w new", "w seq u8 vs 0 0 l 0102 0103 0101 0104", "w ser", "r new 040101010201030104", "r seq u8 v 0 0 l", "r all", "r done"},
 	{"w new", "w seq u16 v 0 0 b 0102 0202 0103", "w seq u16 v 0 0 w 0102 0202", "w ser"},
 	{"w new", "w seq u8 v 2 3 - 00", "w ser", "w new", "w seq u8 v 2 3 - 00 00 00 00", "w ser"},
+	// type words differing only in the most significant byte / only in the least significant one are different types
+	{"w new", "w seq u8 v 0 0 w 0401020304 0401020305 0501020304aa", "w ser", "r new 0304010203040401020305", "r seq u8 v 0 0 w", "r done",
+		"w new", "w seq u8 v 0 0 w 0401020304 04010203", "w ser"},
 	// sticky error: nothing after the refused call is written
 	{"w new", "w byte 7", "w u256 -1", "w byte 8", "w numbad", "w ser"},
 	// reader offsets on failure
